@@ -118,4 +118,4 @@ func cmdFunc(args []string) {
 	}
 }
 
-func cmdCheck(args []string) int { return 0 }
+
